@@ -1,6 +1,7 @@
 import Driver.Util
 import MpcVerif.Model.Determinism
 import MpcVerif.Model.ProcState
+import MpcVerif.Model.ProcSteps
 
 namespace Drv.C08
 open Mpc Mpc.Det Drv
@@ -49,6 +50,40 @@ def parseFold (s : String) : Option PSt.FoldReq :=
 /-- one compilation: `fold,fold,...` -/
 def parseSrc (s : String) : Option PSt.Src := (s.splitOn ",").mapM parseFold
 
+def parseKind : String → Option PSt.Kind
+  | "C" => some .compile | "S" => some .stream | "E" => some .compute | "G" => some .garble
+  | "R" => some .roundtrip | "A" => some .ssa
+  | _ => none
+
+/-- `<arg>` or `<arg>:<w>:<op>:<x>:<y>` -/
+def parseRet (s : String) : Option PSt.Ret :=
+  match s.splitOn ":" with
+  | [a] => do some { arg := ← a.toNat?, fold := none }
+  | [a, w, op, x, y] => do
+    some { arg := ← a.toNat?, fold := some { w := ← w.toNat?, op := ← parseFoldOp op, x := ← x.toNat?, y := ← y.toNat? } }
+  | _ => none
+
+/-- one step of a history over all kinds: `<K>/<argbits,...>/<ret,...>/<in,...>` -/
+def parseReq (s : String) : Option (PSt.Req Unit) :=
+  match s.splitOn "/" with
+  | [k, args, rets, ins] => do
+    some { kind := ← parseKind k, prog := { args := ← (listOf args).mapM (·.toNat?), rets := ← (listOf rets).mapM parseRet },
+           par := (), ins := ← (listOf ins).mapM (·.toNat?), dies := [] }
+  | _ => none
+
+def natList (l : List Nat) : String := ",".intercalate (l.map toString)
+
+/-- What the harness observes of a step: `c=<folded constants>|w=<NumWires-NumGates>` for the kinds that compile a
+circuit, `v=<results>` for the kinds that run the program, `ssa` for CompileSSA. -/
+def renderOut (k : PSt.Kind) (o : PSt.Out) : String :=
+  let c := s!"c={natList o.consts}|w={o.inw.getD 0}"
+  let v := s!"v={natList o.vals}"
+  match k with
+  | .compile | .roundtrip => c
+  | .compute | .garble => c ++ "|" ++ v
+  | .stream => v
+  | .ssa => "ssa"
+
 /--
 `dc <hex names in hand-over order>`            → names in the order DefineConstants wires them
 `ts <hexkey=val,...> <t>`                      → key found by Type.String's search, or `none`
@@ -56,6 +91,8 @@ def parseSrc (s : String) : Option PSt.Src := (s.splitOn ",").mapM parseFold
 `hist <k> <lib> <root> <calls>`                → init blocks and function labels of k compilations on one Compiler
 `phist <src>;<src>;...`                        → the folded wide constants of every compilation of a history in one
                                                  process (`PSt.outputsAlong PSt.stepNow`), `src` = `w:op:x:y,...`
+`ahist <step>;<step>;...`                      → the outputs of every step of a one-process history over ALL step kinds
+                                                 (`PSt.outputsAlongK PSt.stepNowK`), see `parseReq` / `renderOut`
 -/
 def handle (args : List String) : String :=
   match args with
@@ -104,6 +141,12 @@ def handle (args : List String) : String :=
     | some srcs =>
       let outs := PSt.outputsAlong (PSt.stepNow (σ := Unit) (π := Unit)) () (srcs.map fun s => (s, ()))
       ";".intercalate (outs.map fun o => ",".intercalate (o.map toString))
+  | ["ahist", hist] =>
+    match (hist.splitOn ";").mapM parseReq with
+    | none => "bad-op"
+    | some reqs =>
+      let outs := PSt.outputsAlongK (PSt.stepNowK (σ := Unit) (π := Unit)) () reqs
+      ";".intercalate ((reqs.zip outs).map fun (r, o) => renderOut r.kind o)
   | ["fhist", lib, root, calls, n] =>
     -- failing compilation (n function instances done), good one, failing one, good one - on one Compiler
     match n.toNat?, parseLib lib with
